@@ -115,7 +115,13 @@ class C03(Prop):
         elif m == "cache_memlimit":
             a = [rng.choice([8, 64, 1024])]
         elif m == "raw_version":
-            m, a = "raw_command", [E(b"version")]
+            m, a = "raw_command", [E(rng.choice([b"version", b"version", b"delete " + pfx + b"k1",
+                                                 b"incr " + pfx + b"n4 3"]))]
+            r = rng.random()
+            if r < 0.35:
+                a.append(E(rng.choice([b"\n", "\n", b"\r\n"])))          # a one-byte end token (bare LF), or CRLF spelt out
+            elif r < 0.45:
+                k = {"end_tokens": E(b"\n")}
         elif m == "raw_get":
             m = "raw_command"
             a = [E(b"get " + pfx + b"k1"), E(rng.choice([b"END\r\n", "END\r\n"]))]
